@@ -533,6 +533,13 @@ func (e *exporter) instr(in ssa.Instruction) J {
 		j["low"] = e.operand(in.Low)
 		j["high"] = e.operand(in.High)
 		j["max"] = e.operand(in.Max)
+		its := []interface{}{nil, nil, nil}
+		for i, v := range []ssa.Value{in.Low, in.High, in.Max} {
+			if v != nil {
+				its[i] = e.typeID(v.Type())
+			}
+		}
+		j["its"] = its
 	case *ssa.Store:
 		j["op"] = "Store"
 		j["addr"] = e.operand(in.Addr)
